@@ -263,7 +263,7 @@ def plan(tier: str) -> list[dict]:
 
 
 def run_job(rec: core.Recorder, job: dict, seed: int) -> None:
-    xproc(rec, 30 if rec.tier == 'quick' else 400)
+    xproc(rec, 250 if rec.tier == 'quick' else 2000)
     core.run_hypothesis(rec, 'diagram', diagram_spec(), check, max_examples=job['n'], seed=seed)
 
 
